@@ -303,7 +303,8 @@ impl<F: Fl> CWorld<F> {
                 1 => Some(vec![]),
                 2 => Some(vec![("a".to_string(), tag)]),
                 // (the second value carries a Graphviz escape sequence: values must reach the text verbatim)
-                _ => Some(vec![("a".to_string(), tag.clone()), ("b".to_string(), format!("{}\\lx", tag))]),
+                // (and a third one is blank - the usual way to suppress a label - and must still be written)
+                _ => Some(vec![("a".to_string(), tag.clone()), ("b".to_string(), format!("{}\\lx", tag)), ("c".to_string(), if idx.rem_euclid(4) < 2 { String::new() } else { " ".to_string() })]),
             }
         };
         let fmt = |a: &Attrs| -> String {
